@@ -141,6 +141,12 @@ func writeFiles(dir string, files []FileSpec) error {
 		if err := os.MkdirAll(filepath.Dir(p), 0755); err != nil {
 			return err
 		}
+		if f.LinkTo != "" {
+			if err := os.Symlink(filepath.Join(dir, f.LinkTo), p); err != nil {
+				return err
+			}
+			continue
+		}
 		mode := os.FileMode(0644)
 		if f.Mode != 0 {
 			mode = os.FileMode(f.Mode)
